@@ -92,6 +92,10 @@ Landmarks ==
   [ tenth      |-> [r |-> 0,  whole |-> FALSE, f64 |-> FALSE, n |-> 1, d |-> 10],   \* 0.1 parsed at 512 bits
     third      |-> [r |-> 0,  whole |-> FALSE, f64 |-> FALSE, n |-> 1, d |-> 3],    \* 1/3 at 512 bits
     mtenth     |-> [r |-> 0, whole |-> FALSE, f64 |-> FALSE, n |-> -1, d |-> 10],
+    almost1    |-> [r |-> 0, whole |-> FALSE, f64 |-> FALSE, n |-> 999, d |-> 1000],     \* 1 - 10^-20 (order proxy: nothing else lies between)
+    almost3    |-> [r |-> 0, whole |-> FALSE, f64 |-> FALSE, n |-> 2999, d |-> 1000],    \* 3 - 10^-20
+    malmost1   |-> [r |-> 0, whole |-> FALSE, f64 |-> FALSE, n |-> -999, d |-> 1000],
+    malmost3   |-> [r |-> 0, whole |-> FALSE, f64 |-> FALSE, n |-> -2999, d |-> 1000],
     i16max     |-> [r |-> LMBASE - 100, whole |-> TRUE, f64 |-> TRUE],  \* 32767
     i16maxp    |-> [r |-> LMBASE - 99, whole |-> TRUE, f64 |-> TRUE],   \* 32768
     u16max     |-> [r |-> LMBASE - 90, whole |-> TRUE, f64 |-> TRUE],   \* 65535
